@@ -521,6 +521,13 @@ fn extract_http_status_from_response(output: &[u8]) -> hyper::StatusCode {
     hyper::StatusCode::OK
 }
 
+/// Verification hook (compiled only with `--cfg sneldb_verif`): the HTTP status that
+/// `dispatch_and_respond` derives from the rendered response bytes.
+#[cfg(sneldb_verif)]
+pub fn verif_http_status_of_output(output: &[u8]) -> u16 {
+    extract_http_status_from_response(output).as_u16()
+}
+
 /// Map internal status code number to HTTP status code
 fn map_status_code_to_http(status: u64) -> hyper::StatusCode {
     match status {
